@@ -156,7 +156,7 @@ func runC18(t *simrt.Tape, o Opts) Outcome {
 		st.Nontrivial = sdkToRef && refToSdk
 		st.Sample = map[string]any{"mode": mode, "suffix": w.Suffix, "formats": keysOf(formats)}
 	})
-	return finish(s, w, st, false)
+	return finish(s, w, st, true)
 }
 
 func genEKR(rnd *simrt.Rand, id string, created int64) *appencryption.EnvelopeKeyRecord {
